@@ -172,6 +172,22 @@ with expr_td (ds : dataset) (g : graph) (m full : sol) (e : expr) {struct e} : o
       (* ctx = ctx.ctx.thaw(ctx); any solution of evalPart(ctx, graph) *)
       let found := match eval_td ds g (thaw full m) p with [] => false | _ => true end in
       Some (t_bool (Bool.eqb pos found))
+  | EIn pos a cs =>
+      (* RelationalExpression, op IN / NOT IN: "x == expr" over the list - Python term equality, never an error *)
+      match expr_td ds g m full a with
+      | None => None
+      | Some t => Some (t_bool (Bool.eqb pos (existsb (N.eqb t) cs)))
+      end
+  | ECoalesce a b =>
+      (* Builtin_COALESCE: the first argument that is not an error / unbound *)
+      match expr_td ds g m full a with Some t => Some t | None => expr_td ds g m full b end
+  | EIf c a b =>
+      (* Builtin_IF: expr.arg2 if EBV(expr.arg1) else expr.arg3 - only the chosen branch is evaluated *)
+      match ebv_of (expr_td ds g m full c) with
+      | None => None
+      | Some true => expr_td ds g m full a
+      | Some false => expr_td ds g m full b
+      end
   end.
 
 Definition model_obs (c : case) : obs :=
